@@ -57,7 +57,7 @@ def gen_whole(rng, max_funcs=3):
         # keywords in the function headers (declarations and definitions alike)
         # (an address space only on functions nothing refers to: a reference spells the pointer type of the function, address space included)
         alltext = " ".join(x for f in funcs for x in f)
-        funcs = [core3gen.with_tail(rng, core3gen.with_lead(rng, f), addrspace_ok=("@" + f[1].split("~")[0]) not in alltext) for f in funcs]
+        funcs = [core3gen.with_pattrs(rng, core3gen.with_tail(rng, core3gen.with_lead(rng, f), addrspace_ok=("@" + f[1].split("~")[0]) not in alltext)) for f in funcs]
         # metadata attachments on instructions, referring to definitions of the metadata section (which is printed AFTER the functions)
         if dd != "-" and rng.random() < 0.7:
             ids = [int(e.split(":")[0]) for e in dd.split("|")]
@@ -157,7 +157,7 @@ def mutants(rng, text):
         k, m = rng.choice(guses)
         out.append(("global-use-as-local", with_line(k, lines[k][:m.start()] + b"%" + m.group(0)[1:] + lines[k][m.end():])))
     # keywords of function headers: one of each family, in the order of the grammar
-    KW = rb"(?:appending|available_externally|common|internal|linkonce_odr|linkonce|private|weak_odr|weak|external|extern_weak|dso_local|dso_preemptable|default|hidden|protected|dllexport|dllimport|[a-z0-9_]*cc|ptx_kernel|ptx_device|spir_func|spir_kernel|amdgpu_[a-z]+|aarch64_[a-z_]+)"
+    KW = rb"(?:appending|available_externally|common|internal|linkonce_odr|linkonce|private|weak_odr|weak|external|extern_weak|dso_local|dso_preemptable|default|hidden|protected|dllexport|dllimport|[a-z0-9_]*cc|ptx_kernel|ptx_device|spir_func|spir_kernel|amdgpu_[a-z]+|aarch64_[a-z_]+|inreg|noalias|nonnull|noundef|signext|zeroext)"
     heads = [(k, m) for k in fn + dc for m in [re.match(rb"(define|declare) ((?:" + KW + rb" )+)", lines[k])] if m]
     if heads:
         k, m = rng.choice(heads)
@@ -178,6 +178,26 @@ def mutants(rng, text):
         m = re.match(rb"(define|declare) ", lines[k])
         for kw in rng.sample([b"internal", b"hidden", b"dso_local", b"fastcc", b"dllimport", b"extern_weak", b"amdgpu_kernel", b"linkonce_odr"], 2):
             out.append(("header-keyword-added", with_line(k, lines[k][:m.end()] + kw + b" " + lines[k][m.end():])))
+    # parameter attributes (`T noundef signext %x`): a list per parameter, between the type and the name
+    plists = [(k, m) for k in fn + dc for m in [re.match(rb"(?:define|declare) [^()]*\(([^()]+)\)", lines[k])] if m]
+    if plists:
+        k, m = rng.choice(plists)
+        names = [n for n in re.finditer(rb' (%(?:"[^"]*"|[-a-zA-Z$._0-9]+))(?=, |$)', m.group(1))]
+        if names:
+            n = rng.choice(names)
+            at = m.start(1) + n.start(1)
+            kw = rng.choice([b"noundef", b"inreg", b"signext", b"zeroext", b"nocapture", b"readonly", b"returned", b"swiftself"])
+            out.append(("param-attr-added", with_line(k, lines[k][:at] + kw + b" " + lines[k][at:])))
+            out.append(("param-attr-two-added", with_line(k, lines[k][:at] + kw + b" " + kw + b" noalias " + lines[k][at:])))
+            end = m.start(1) + n.end(1)
+            out.append(("param-attr-after-name", with_line(k, lines[k][:end] + b" " + kw + lines[k][end:])))
+            out.append(("param-attr-header-keyword", with_line(k, lines[k][:at] + b"dso_local " + lines[k][at:])))
+        attrs = [a for a in re.finditer(rb" (immarg|inreg|nest|noalias|nocapture|nofree|nonnull|noundef|readnone|readonly|returned|signext|swiftasync|swifterror|swiftself|writeonly|zeroext)(?= )", m.group(1))]
+        if attrs:
+            a = rng.choice(attrs)
+            s0, e0 = m.start(1) + a.start(), m.start(1) + a.end()
+            out.append(("param-attr-doubled", with_line(k, lines[k][:e0] + lines[k][s0:e0] + lines[k][e0:])))
+            out.append(("param-attr-dropped", with_line(k, lines[k][:s0] + lines[k][e0:])))
     # the clauses behind the parameter list: `unnamed_addr` and `addrspace(N)` come first, in this order and once; the others in any order, a repeated `section` /
     # `partition` / `align` / `gc` overwrites the earlier one, attribute keywords accumulate; what is printed is the canonical order
     tails = [(k, m) for k in fn + dc for m in [re.search(rb"\) ((?:(?:[a-z_]+|addrspace\(\d+\)|(?:section|partition|gc) \"[^\"]*\"|align \d+) )*)\{$", lines[k] + (b" {" if k in dc else b""))] if m]
